@@ -193,7 +193,7 @@ def clafer_fragment(rng, n_feat):
                 return f
             budget[0] -= n
             kids = [mk(budget, depth + 1) for _ in range(n)]
-            mn, mx = {'xor': (1, 1), 'or': (1, n), 'mux': (0, 1)}.get(kind) or rng.choice([(2, n), (0, n), (2, 2), (n, n), (0, 2)])
+            mn, mx = {'xor': (1, 1), 'or': (1, n), 'mux': (0, 1)}.get(kind) or rng.choice([(2, n), (0, n), (2, 2), (n, n), (0, 2), (1, n - 1), (1, 2), (0, n - 1)])
             f['relations'] = [{'min': mn, 'max': mx, 'children': kids}]
         return f
     return {'root': mk([n_feat], 0), 'ctcs': []}
@@ -227,6 +227,10 @@ def main():
         d['ctcs'] = [{'name': f'c{i}', 'ast': M.random_ctc(rng, names, 2)} for i in range(rng.choice([0, 1, 2]))]
         if k % 3 == 0:
             d = with_hostile_names(d, rng, ['my root', 'a-b', 'x y', 'Ünï', 'p q r', 'A AND B', 'k.l'[:1] + 'l', 'NOT x'])
+            names = [f['name'] for f, _, _ in d_features(d)]
+        if k % 3 == 1:
+            d['ctcs'] = [{'name': f'c{i}', 'ast': M.random_ctc(rng, names, 3)} for i in range(rng.choice([1, 2]))]
+            d = with_wordy_names(d, rng)
             names = [f['name'] for f, _, _ in d_features(d)]
         key = str(k)
         kn = known_clafer(d)
